@@ -191,13 +191,26 @@ def orderings(counts):
 
 
 # ---------------------------------------------------------------- (2) deterministic thread schedules
+ABORT = [False]      # set once a blocked operation was witnessed: the process then holds stuck daemon threads, the remaining cases are skipped
+BLOCKED = []
+
+
 def slices_of(spec_idx):
     """number of scheduler slices a construct+run of this spec takes (start + yield points), measured"""
+    if ABORT[0]:
+        return 1
     res, trace, prob = sched.run_schedule([0] * 64, [lambda: do_run(construct(SPECS[spec_idx]), SPECS[spec_idx])])
+    blocked = [x for x in prob if isinstance(x, dict)]
+    if blocked:
+        # a single object, alone in its thread, never returns: something an earlier object of this process did holds it up
+        BLOCKED.append({"spec": spec_idx, "blocked": blocked[0], "trace": trace[-8:]})
+        ABORT[0] = True
     return len(trace)
 
 
 def sched_case(ctx, refs, idxs, schedule, fine=False):
+    if ABORT[0]:
+        return
     ctx.evaluated()
     ctx.nontrivial_case(digest("sched|%s|%s|%s" % (idxs, schedule, fine)))
     nown = STATE.counters.get("own_violation", 0)
@@ -208,6 +221,13 @@ def sched_case(ctx, refs, idxs, schedule, fine=False):
     finally:
         sched.FINE[0] = False
     if problems:
+        blocked = [x for x in problems if isinstance(x, dict)]
+        if blocked:
+            # an operation of one object never returns once another object has done something (e.g. raised): that is interference
+            ctx.violation("operation_blocked_by_another_object", {"gen": "schedule", "specs": idxs, "schedule": schedule, "fine": bool(fine)},
+                          {"blocked": blocked[0], "trace": trace[-12:]})
+            ABORT[0] = True
+            return
         ctx.inconclusive_because("scheduler: %s (specs %s schedule %s)" % (problems, idxs, schedule))
         return
     ctx.obs["scheduled_executions"] += 1
@@ -222,6 +242,8 @@ def sched_case(ctx, refs, idxs, schedule, fine=False):
 
 # ---------------------------------------------------------------- (3) free-running stress
 def stress(ctx, refs, nthreads, rounds, label):
+    if ABORT[0]:
+        return
     errs = []
     old = sys.getswitchinterval()
     sys.setswitchinterval(1e-6)
@@ -243,13 +265,24 @@ def stress(ctx, refs, nthreads, rounds, label):
     t0 = time.time()
     for t in ts:
         t.start()
+    deadline = time.time() + 300
     for t in ts:
-        t.join(600)
+        t.join(max(0.1, deadline - time.time()))
     sys.setswitchinterval(old)
+    alive = [t for t in ts if t.is_alive()]
+    if alive:
+        s1 = [sched.stack_of(t) for t in alive]
+        time.sleep(2.0)
+        s2 = [sched.stack_of(t) for t in alive]
+        if s1 == s2 and len(alive) < len(ts):
+            # every thread that is still alive sits on the same line as two seconds ago while the other threads have finished
+            ctx.violation("operation_blocked_by_another_object", {"gen": "stress", "threads": nthreads, "rounds": rounds, "label": label},
+                          {"threads_blocked": len(alive), "threads_finished": len(ts) - len(alive), "stack": s1[0]})
+            ABORT[0] = True
     ctx.evaluated(done[0])
     ctx.obs["stress_runs_compared:" + label] += done[0]
     ctx.obs["stress_threads"] = max(ctx.obs.get("stress_threads", 0), nthreads)
-    if any(t.is_alive() for t in ts):
+    if any(t.is_alive() for t in ts) and not ABORT[0]:
         ctx.inconclusive_because("stress threads did not finish")
     if errs:
         ctx.violation("free_running_thread_interference", {"gen": "stress", "threads": nthreads, "rounds": rounds, "label": label},
@@ -400,6 +433,9 @@ def run_shard(ctx):
             jj += 1
             if ctx.mine(jj):
                 word_echo(ctx, word, use, mode, how)
+    for bl in BLOCKED:
+        ctx.violation("operation_blocked_by_another_object", {"gen": "single_object_in_a_thread", "spec": bl["spec"]}, bl)
+    del BLOCKED[:]
     # (3) free-running stress
     if ctx.tier == "quick":
         stress(ctx, refs, 8, 10, "free_running")
